@@ -606,7 +606,7 @@ func TestC11(t *testing.T) {
 	}
 	total := 1200 / cfg.NShards
 	if cfg.Thorough() {
-		total = 12000 / cfg.NShards
+		total = 40000 / cfg.NShards
 	}
 	rapidLoop(t, rec, "load", total, 50, dl, func(rt *rapid.T) *failure {
 		nh := rapid.IntRange(1, 4).Draw(rt, "nhandlers")
